@@ -261,8 +261,9 @@ def r6_scipy(ctx):
             continue
         v = p.value
         ok = None
-        if v[0] == "call" and v[1] == Q.self_attr("interpolator_") and len(v[2]) == 1:
-            a = v[2][0]
+        if v[0] == "call" and v[1] == Q.self_attr("interpolator_") and len(v[2]) in (1, 2):
+            # SciPy's N-D interpolators accept f((x, y)) and f(x, y) alike (documented: "*args: points to interpolate data at")
+            a = v[2][0] if len(v[2]) == 1 else ("tuple", tuple(v[2]))
             ok = True if a == ("tuple", (Q.sub(co, 0), Q.sub(co, 1))) else (False if a == ("tuple", (Q.sub(co, 1), Q.sub(co, 0))) else None)
         ctx.check("R6", qn + "|query-is-(E, N)", ok, "predict evaluates interpolator_((easting, northing))", bad="predict passes (northing, easting)", fn=qn)
 
@@ -309,10 +310,19 @@ def r7_trend(ctx):
             else:
                 st = [e for e in p.events if e.kind == "store"]
                 ok_pair = it[0] == "call" and callee(it) == "builtins.enumerate" and it[2] and canon(it[2][0]) == canon(combos)
-                ctx.check("R7", qn + "|column-k-is-combination-k", True if ok_pair and len(st) == 1 and st[0].data[1] == ("tuple", (("slice", NONE, NONE, NONE), ("idx", lid))) else (False if len(st) == 1 and st[0].data[1][0] == "tuple" and st[0].data[1][1][0] == ("idx", lid) else None),
+                okcol = True if ok_pair and len(st) == 1 and st[0].data[1] == ("tuple", (("slice", NONE, NONE, NONE), ("idx", lid))) else (False if len(st) == 1 and st[0].data[1][0] == "tuple" and st[0].data[1][1][0] == ("idx", lid) else None)
+                comb = ("elem", combos, lid)
+                if okcol is None and len(st) == 1 and it[0] == "call" and callee(it) == "builtins.zip" and len(it[2]) == 2 and canon(it[2][1]) == canon(combos):
+                    # the same pairing written over the column VIEWS of the matrix: for column, (i, j) in zip(out.T, combinations): column[:] = ...
+                    views, base_, idx_ = it[2][0], st[0].data[0], st[0].data[1]
+                    buf = views[1] if views[0] == "attr" and views[2] == "T" else (views[2][0] if views[0] == "call" and callee(views) in ("numpy.transpose", "numpy.swapaxes") and views[2] else None)
+                    whole = idx_ in (("slice", NONE, NONE, NONE), const(Ellipsis))
+                    if buf is not None and buf[0] == "call" and callee(buf) in ("numpy.empty", "numpy.zeros") and whole and base_ in (("sub", ("elem", it, lid), const(0)), ("elem", views, lid)):
+                        okcol = True
+                        comb = ("elem", combos, lid) if base_ == ("elem", views, lid) else ("sub", ("elem", it, lid), const(1))
+                ctx.check("R7", qn + "|column-k-is-combination-k", okcol,
                           "column k of the design matrix holds combination k", bad="the design matrix is filled along rows", fn=qn)
                 if len(st) == 1:
-                    comb = ("elem", combos, lid)
                     env.update({Q.sub(comb, 0): sp.sym("i"), Q.sub(comb, 1): sp.sym("j")})
                     try:
                         forms[m] = (sp, Builder(sp).nf(st[0].data[2], env))
